@@ -47,7 +47,7 @@ RULE = ("direct: 1-3 stations (registration order not sorted), start queue empty
         "run: 1-3 stations, 0-4 non-overlapping sessions, extra recompute events, max_recompute in "
         "{None,1,2,3}, a script giving every period a schedule (len 1-6, any subset, empty, beyond the "
         "horizon, in the last period), occasionally malformed or invalid for the EVSE; exh (thorough): every "
-        "sequence of <=3 submissions over 2 stations, t<=3, len<=3, lastTs in {none,4}, start width in {1,5}. "
+        "sequence of <=3 submissions over 2 stations, t<=3 non-decreasing, len<=3 (plus empty / ragged / unknown-station dicts), lastTs in {none,4} (per submission for <=2 submissions, per sequence for 3), start width in {1,5}. "
         "non-trivial = an accepted submission overwrites part of an earlier accepted one, or the matrix has to "
         "grow, or a submission is rejected; distinct by hash of the case")
 
@@ -293,9 +293,36 @@ _EXH_LAST = [None, 4]
 _EXH_TS = [ts for n in (1, 2, 3) for ts in itertools.combinations_with_replacement(range(4), n)]
 
 
+def _exh_groups():
+    """(start_queue, ts, choices per submission): 1-2 submissions get every lastTs combination, 3 submissions
+    one lastTs for the whole sequence (none or 4)"""
+    full = [(sh, n, l) for (sh, n) in _EXH_SHAPES for l in _EXH_LAST]
+    out = []
+    for w0 in ([], [4]):
+        for ts in _EXH_TS:
+            if len(ts) < 3:
+                out.append((w0, ts, [full] * len(ts)))
+            else:
+                for l in _EXH_LAST:
+                    out.append((w0, ts, [[(sh, n, l) for (sh, n) in _EXH_SHAPES]] * 3))
+    return out
+
+
+_EXH_GROUPS = _exh_groups()
+
+
+def _group_size(g):
+    n = 1
+    for ch in g[2]:
+        n *= len(ch)
+    return n
+
+
+_EXH_OFFS = list(itertools.accumulate([0] + [_group_size(g) for g in _EXH_GROUPS]))
+
+
 def _exh_total():
-    per = len(_EXH_SHAPES) * len(_EXH_LAST)
-    return sum(2 * per ** len(ts) for ts in _EXH_TS)
+    return _EXH_OFFS[-1]
 
 
 def _exh_sched(shape, n, k):
@@ -316,20 +343,30 @@ def _exh_sched(shape, n, k):
     return [["A", row(0, 1)], ["Z", row(5, 1)]]
 
 
-def _exh_iter():
-    """deterministic enumeration of all scenarios: (start_queue, ops)"""
-    per = [(sh, n, l) for (sh, n) in _EXH_SHAPES for l in _EXH_LAST]
-    for w0 in ([], [4]):
-        for ts in _EXH_TS:
-            for combo in itertools.product(per, repeat=len(ts)):
-                ops = []
-                for k, (t, (sh, n, l)) in enumerate(zip(ts, combo)):
-                    ops.append({"t": t, "queue": ([] if l is None else [l]), "sched": _exh_sched(sh, n, k)})
-                yield {"mode": "direct", "stations": EXH_STATIONS, "limit": None, "start_queue": w0, "ops": ops}
+def _exh_scenario(idx):
+    """scenario number `idx` of the enumeration (mixed-radix decoding)"""
+    import bisect
+    gi = bisect.bisect_right(_EXH_OFFS, idx) - 1
+    w0, ts, choices = _EXH_GROUPS[gi]
+    r = idx - _EXH_OFFS[gi]
+    ops = []
+    for k in reversed(range(len(ts))):
+        ch = choices[k]
+        sh, n, l = ch[r % len(ch)]
+        r //= len(ch)
+        ops.append({"t": ts[k], "queue": ([] if l is None else [l]), "sched": _exh_sched(sh, n, k)})
+    ops.reverse()
+    return {"mode": "direct", "stations": EXH_STATIONS, "limit": None, "start_queue": w0, "ops": ops}
+
+
+_SLICE_CACHE = {}
 
 
 def _exh_slice(lo, hi):
-    return list(itertools.islice(_exh_iter(), lo, hi))
+    if (lo, hi) not in _SLICE_CACHE:
+        _SLICE_CACHE.clear()
+        _SLICE_CACHE[(lo, hi)] = [_exh_scenario(i) for i in range(lo, hi)]
+    return _SLICE_CACHE[(lo, hi)]
 
 
 def _run_exh(case):
